@@ -136,13 +136,50 @@ func Authenticate(ab *authboss.Authboss, w http.ResponseWriter, req **http.Reque
 		return errors.Wrap(err, "failed to save remember me token")
 	}
 
-	*req = (*req).WithContext(context.WithValue((*req).Context(), authboss.CTXKeyPID, pid))
+	ctx := context.WithValue((*req).Context(), authboss.CTXKeyPID, pid)
+
+	// The session values put below only reach the client with the response.
+	// Let the rest of this request see them as well, otherwise everything
+	// downstream that asks authboss.IsFullyAuthed (Middleware2 with
+	// RequireFullAuth for one) treats the remember cookie as a full login.
+	var state authboss.ClientState
+	if val := ctx.Value(authboss.CTXKeySessionState); val != nil {
+		state, _ = val.(authboss.ClientState)
+	}
+	ctx = context.WithValue(ctx, authboss.CTXKeySessionState, rememberedState{
+		ClientState: state,
+		values: map[string]string{
+			authboss.SessionKey:         pid,
+			authboss.SessionHalfAuthKey: "true",
+		},
+	})
+
+	*req = (*req).WithContext(ctx)
 	authboss.PutSession(w, authboss.SessionKey, pid)
 	authboss.PutSession(w, authboss.SessionHalfAuthKey, "true")
 	authboss.DelCookie(w, authboss.CookieRemember)
 	authboss.PutCookie(w, authboss.CookieRemember, token)
 
 	return nil
+}
+
+// rememberedState is the session state of a request that was just
+// authenticated by its remember cookie: what the request came with, plus the
+// values Authenticate wrote for the response.
+type rememberedState struct {
+	authboss.ClientState
+	values map[string]string
+}
+
+// Get a key, the values written by Authenticate take precedence
+func (r rememberedState) Get(key string) (string, bool) {
+	if val, ok := r.values[key]; ok {
+		return val, true
+	}
+	if r.ClientState == nil {
+		return "", false
+	}
+	return r.ClientState.Get(key)
 }
 
 // AfterPasswordReset is called after the password has been reset, since
